@@ -2,7 +2,7 @@
 import ast
 
 from ..core import dl, ir
-from .common import get_ctx, get_ctor, require_supported, check_dl
+from .common import get_ctx, get_ctor, get_fn, require_supported, check_dl
 from .c07 import guards_with_context
 from . import apirules
 
@@ -132,13 +132,16 @@ def constructor(rep, idx):
     rep.check(set(ys) in (want, want2), "C11.4", it.site, "Register.__iter__ yields ((), field) or the flattened collection",
               f"yields: {[ir.show(y) for y in ys]}")
     # ---- C11.5 access rejection ------------------------------------------------------------------------------
-    g = guards_with_context(ctor.fi)
-    N = lambda t: ir.norm(ir.parse(t))
+    from .common import check_refusal
     for mode in ("readable", "writable"):
-        found = [x for x in g if x[0] == N(f"field.port.access.{mode}() and not access.{mode}()") and x[3] == "ValueError"
-                 and x[2] and x[2][-1] == ('name', 'self')]
-        rep.check(bool(found), "C11.5", site, f"a {mode} field in a register whose access mode is not {mode} is refused (ValueError)",
-                  f"no `if field.port.access.{mode}() and not access.{mode}(): raise ValueError` inside the field loop")
+        ok, detail = False, ""
+        # the guard sits in the loop over the register's own fields
+        env = {"field": field}
+        if "access" in ctor.t.final_env:
+            env["access"] = ctor.t.final_env["access"]          # the effective access mode (after defaulting / conversion)
+        from .common import refuses
+        ok, detail = refuses(ctor, f"field.port.access.{mode}() and not access.{mode}()", "ValueError", env)
+        rep.check(ok, "C11.5", site, f"a {mode} field in a register whose access mode is not {mode} is refused (ValueError)", detail)
     # the raises precede super().__init__ (the component is never half-built)
     fg = apirules.graph(idx, ctor.fi)
     gph = fg.g
@@ -159,26 +162,47 @@ def flatten_order(rep, idx):
             rep.unk("C11.6", fi.site, "flatten() shape", "body is not a single for loop")
             continue
         loop = body[0]
-        it = ir.norm(ir.from_ast(loop.iter, {}))
-        rep.check(it in [ir.norm(ir.parse(t)) for t in want_iter], "C11.6", fi.site,
-                  "flatten() walks the fields in declaration order", f"iterates {ir.show(it)}; expected {want_iter[0]}")
-        names = [n.id for n in ast.walk(loop.target) if isinstance(n, ast.Name)]
-        if len(names) != 2:
-            rep.unk("C11.6", fi.site, "flatten() loop target", "expected (key, field)")
+        c = get_fn(idx, fi)
+        L = [x for x in c.t.loops.values() if x.lineno == loop.lineno]
+        if len(L) != 1:
+            rep.unk("C11.6", fi.site, "flatten() loop", "cannot identify the loop symbolically")
             continue
-        key, fld = names
-        ys = []
-        for n in ast.walk(loop):
-            if isinstance(n, ast.Yield) and n.value is not None:
-                ys.append(ir.norm(ir.from_ast(n.value, {})))
-        inner = [n for n in ast.walk(loop) if isinstance(n, ast.For) and n is not loop]
-        ok_inner = len(inner) == 1 and ir.norm(ir.from_ast(inner[0].iter, {})) == ir.norm(ir.parse(f"{fld}.flatten()"))
+        L = L[0]
+        it = c.norm(L.iter)
+        wants = [c.parse(x) for x in want_iter]
+        index_forms = [c.parse("range(len(self))"), c.parse("range(len(self._fields))")]
+        if it in wants and not L.reversed:
+            rep.ok("C11.6", fi.site, "flatten() walks the fields in declaration order", f"iterates {ir.show(it)}")
+        elif it in index_forms and not L.reversed and cname == "FieldActionArray":
+            rep.ok("C11.6", fi.site, "flatten() walks the fields in declaration order", f"iterates indices {ir.show(it)} ascending")
+        elif L.reversed or (it[0] == 'call' and it[1] in (('name', 'reversed'), ('name', 'sorted'))) or \
+                any(x[0] == 'call' and x[1] in (('name', 'reversed'), ('name', 'sorted')) for x in ir.walk(it)):
+            rep.bad("C11.6", fi.site, "flatten() walks the fields in declaration order", f"iterates {ir.show(it)}: fields would be packed in another order "
+                    "than they were declared")
+        else:
+            rep.unk("C11.6", fi.site, "flatten() walks the fields in declaration order", f"unrecognised iteration {ir.show(it)}")
+            continue
+        # what is yielded: ((key, *sub_path), sub_field) for nested collections, ((key,), field) otherwise
+        ys = [c.norm(v) for v, frm, gen, ln in c.t.yields if not frm]
+        inner = [x for x in c.t.loops.values() if x.id != L.id]
+        if L.kind == 'range':
+            key = ('idx', L.id)
+            fld_alts = [c.norm(('sub', ('name', 'self'), key)), c.norm(('sub', c.parse("self._fields"), key))]
+        elif L.kind == 'enum':
+            key = ('idx', L.id)
+            fld_alts = [c.norm(('sub', L.seq, key))]
+        else:
+            key = ('item', L.id, (0,))
+            fld_alts = [('item', L.id, (1,))]
+        ok_inner = len(inner) == 1 and any(c.norm(inner[0].iter) == c.norm(('call', ('attr', f_, 'flatten'), (), ())) for f_ in fld_alts)
         rep.check(ok_inner, "C11.6", fi.site, "nested collections are flattened recursively in place",
-                  f"inner loops: {[ast.unparse(n.iter) for n in inner]}")
+                  f"inner loops: {[ir.show(c.norm(x.iter)) for x in inner]}")
         if ok_inner:
-            sn = [n.id for n in ast.walk(inner[0].target) if isinstance(n, ast.Name)]
-            want = {ir.norm(ir.parse(f"(({key}, *{sn[0]}), {sn[1]})")), ir.norm(ir.parse(f"(({key},), {fld})"))} if len(sn) == 2 else set()
-            rep.check(set(ys) == want, "C11.6", fi.site, "paths are prefixed with the key / index of the enclosing collection",
+            sp, sf = ('item', inner[0].id, (0,)), ('item', inner[0].id, (1,))
+            want_nested = c.norm(('tuple', (('tuple', (key, ('star', sp))), sf)))
+            want_leaf = [c.norm(('tuple', (('tuple', (key,)), f_))) for f_ in fld_alts]
+            ok = len(ys) == 2 and want_nested in ys and any(w in ys for w in want_leaf)
+            rep.check(ok, "C11.6", fi.site, "paths are prefixed with the key / index of the enclosing collection",
                       f"yields {[ir.show(y) for y in ys]}")
     # FieldActionMap keeps insertion order: _fields is a dict filled in fields.items() order
     m = idx.find_func("FieldActionMap.__init__")
